@@ -10,7 +10,9 @@ class C12(Check):
                   "serveTCPConn loop with its query limit, Conn.Write / response.Write (refusal above 65535 octets, one "
                   "Write per frame), Client.ExchangeWithConnContext for streams (ErrId) and datagrams (skip loop, receive "
                   "buffer size, deadline; exchange_dgram_timed: arrivals with their times, the read deadline fixed once as the "
-                  "earlier of Client.Timeout/ReadTimeout/2 s and the context's deadline); Model/PoolLts.v: labelled transition system of the UDP receive-buffer pool "
+                  "earlier of Client.Timeout/ReadTimeout/2 s and the context's deadline; exchange_session: several exchanges on one Conn - "
+                  "the receive size is a field of the Conn set per exchange from the query's OPT size, else Client.UDPSize, else kept; "
+                  "unread datagrams stay queued for the next exchange); Model/PoolLts.v: labelled transition system of the UDP receive-buffer pool "
                   "(receive into a pooled buffer / decode-then-Put / drop / handle) for any number of interleaved requests")
     rule = ("model cases: streams given as recipes (frames of 0..4095 octets and 32768/65534/65535 octets, raw tails, early "
             "EOF) x chunkings (whole, octet by octet, cuts at frame boundaries +-1, split length octets, random with empty "
@@ -34,7 +36,15 @@ class C12(Check):
             "decorated readers (header/trailer stripped: sub-slice, capacity cut, copy) and writers (header, trailer, two "
             "datagrams) with on-wire sizes directed at UDPSize. Wildcard UDP listeners (udp4, udp6, dual-stack) reached "
             "through several local addresses at once, handlers writing 1-3 replies with other requests in between: every "
-            "reply arrives from the address its client sent to. Non-trivial = at least "
+            "reply arrives from the address its client sent to. Sessions: 2-6 exchanges on ONE datagram Conn with one Client "
+            "where the advertised size (OPT none / below 512 / 511..513 / 600 / 800 / 1232 / 4096 / 8192 / 65535), "
+            "Client.UDPSize, the Conn's initial UDPSize and the reply size (both sides of every limit in play) change from "
+            "exchange to exchange, stale and duplicate replies staying queued for the next one - model cases xsession, "
+            "oracle: a matching reply within the advertised size is returned intact whatever came before; the same against "
+            "real UDP/TCP servers. Kept writers: handlers that use their ResponseWriter after returning (Hijack + goroutine, "
+            "Transfer.Out, late writes on an open and on a closed connection, late UDP replies) while other connections "
+            "are accepted, served and closed: every reply on its own connection, in order, nothing anywhere else. "
+            "Non-trivial = at least "
             "one message delivered or an ok exchange; distinct by hash.")
     partial = [
         "no mixing across requests, connections or recycled buffers under real concurrency is a RUNTIME OBSERVATION: "
@@ -42,6 +52,9 @@ class C12(Check):
         "clients x 25 requests against real UDP and TCP servers on 127.0.0.1, the decoded-request-does-not-alias-the-"
         "buffer test, the single-P buffer-recycling-order test and the kept-request tests (handlers parked while the "
         "receive buffer of their request is recycled); the Go scheduler and kernel sockets are outside the model",
+        "one response writer per connection/request - what a handler writes through a writer it kept beyond its call "
+        "(Hijack, Transfer.Out, late writes) goes to its own connection only - is a RUNTIME OBSERVATION over scripted "
+        "connections/datagrams and real TCP sockets (writer identity is not part of the model)",
         "deadline behaviour in wall-clock time is a RUNTIME OBSERVATION with 4 s tolerance (verdicts are dropped when the "
         "harness' own timers ran more than 1 s late); the theorems about exchange_dgram_timed hold for the model in which "
         "the deadline is fixed when the request is written",
